@@ -9,7 +9,7 @@
               requested -- the compiler's own helper columns (row numbers)        [c05_helpers_exposed_refuted]
          F26  a star expands in table order, the frame may list other columns first  [c05_star_order_refuted] *)
 From Coq Require Import List Bool Arith.
-From PV Require Import Model.Rel Proofs.FrameFacts Model.Wildcards Proofs.WildcardsProofs.
+From PV Require Import Model.Rel Proofs.FrameFacts Model.Wildcards Proofs.WildcardsProofs Model.Dedup Proofs.DedupProofs.
 Import ListNotations.
 
 Theorem c05_select_one_column_per_item : forall cols l r, In r (Rel.apply (TSelect cols) l) -> length r = length cols.
@@ -34,6 +34,28 @@ Theorem c05_wildcards_no_loss : forall (orig_of : cid -> option (list cid)) cols
   forall x, In x (map fst cols) -> In x (denote orig_of false (translate_wildcards cols)).
 Proof. exact translate_wildcards_no_loss. Qed.
 Print Assumptions c05_wildcards_no_loss.
+
+(* ---- deduplicate_select_items (model Model/Dedup.v, compared with every real call through the second hook).
+   Full statement "no selected column is dropped or merged" is FALSE (F13): a qualified identifier whose parts have
+   all been seen -- in DIFFERENT earlier items -- is dropped although it denotes a distinct column. *)
+Theorem c05_dedup_keeps_fresh_items_partial : forall items seen s,
+  incl seen s -> all_fresh s items = true -> dedup seen items = items.
+Proof. exact dedup_keeps_fresh. Qed.
+Print Assumptions c05_dedup_keeps_fresh_items_partial.
+
+(* witness: t.x, u.y, t.a, u.a  (t=0 u=1 x=2 y=3 a=4): four distinct columns, u.a is dropped *)
+Theorem c05_dedup_drops_distinct_column_refuted :
+  dedup [] [ICompound [0; 2]; ICompound [1; 3]; ICompound [0; 4]; ICompound [1; 4]]
+  = [ICompound [0; 2]; ICompound [1; 3]; ICompound [0; 4]].
+Proof. vm_compute. reflexivity. Qed.
+Print Assumptions c05_dedup_drops_distinct_column_refuted.
+
+Theorem c05_dedup_never_adds : forall items seen, length (dedup seen items) <= length items.
+Proof. exact dedup_sublist. Qed.
+Print Assumptions c05_dedup_never_adds.
+
+Example c05_ex_dedup_fresh : all_fresh [] [ICompound [0; 2]; IAlias 5; ICompound [1; 3]; IOther] = true.
+Proof. vm_compute. reflexivity. Qed.
 
 (* F23: a real call (from `from t | group {a} (sort {id} | take 1)`): requested a(4), id(5), *(6) of an
    instance whose known columns are 4,5,6 and the row-number helper 7; without EXCLUDE the helper shows *)
